@@ -164,6 +164,11 @@ def lines_on(trace, printer):
     return [e[2][0] for e in trace if e[0] == 'line' and e[1] is printer]
 
 
+def calls(trace):
+    """the call events (without the ':returned' / ':raised' outcome events)"""
+    return [e for e in trace if ':' not in e[0]]
+
+
 def touched(trace, printer):
     return [e for e in trace if e[0] in ('line', 'write', 'error-message') and
             (e[1] is printer or (e[0] == 'error-message' and e[1]['printer'] is printer))]
@@ -176,7 +181,13 @@ def _mk_env(interp, name):
     return process_result_reporter.Environment(Any_.make(interp, name + '.std_files'), printers)
 
 
-ENVIRONMENT = Custom(_mk_env)
+def _mk_env_concrete(cx, name):
+    out = Iface(PrinterI).concrete(cx, name + '.out')
+    err = Iface(PrinterI).concrete(cx, name + '.err')
+    return process_result_reporter.Environment(object(), process_result_reporter.StdOutputFilePrinters(out, err))
+
+
+ENVIRONMENT = Custom(_mk_env, concrete=_mk_env_concrete)
 
 # assumed: the renderers of error messages write to the printer they are given and to nothing else
 M.contract('exactly_lib.common.result_reporting:print_error_message_for_full_result', trusted=True,
@@ -207,7 +218,12 @@ def _mk_reporter(cls):
         r._reporting_environment = _mk_env(interp, name + '.env')
         return r
 
-    return Custom(mk)
+    def mk_concrete(cx, name):
+        r = object.__new__(cls)
+        r._reporting_environment = _mk_env_concrete(cx, name + '.env')
+        return r
+
+    return Custom(mk, concrete=mk_concrete)
 
 
 NORMAL = _mk_reporter(result_reporting._ResultReporterForNormalOutput)
@@ -312,3 +328,143 @@ def _constants(ctx):
         ctx.obligation('enum coherence ExecutionFailureStatus.%s -> FullExeResultStatus' % m.name, ok, 'enumeration')
     for s in FullExeResultStatus:
         ctx.obligation('every verdict has a table row: %s' % s.name, s.name in CODE, 'enumeration')
+
+
+# ------------------------------------------------------------------------------ invalid usage: exit 64, nothing on stdout
+from exactly_lib.cli import main_program
+from exactly_lib.util import argument_parsing_utils
+from exactly_lib.processing.standalone import processor as standalone_processor
+from exactly_lib.processing import processors
+from exactly_lib.execution.configuration import ExecutionConfiguration
+from exactly_lib.impls.instructions.configuration import test_case_status as status_instruction
+from exactly_lib.test_case import test_case_status as tcs
+
+P_MP = 'exactly_lib.cli.main_program'
+
+
+class FileI(Interface):
+    """a text stream (sys.stderr / sys.stdout): writes are ghost events"""
+    methods = {'write': Method(event='file-write'), 'flush': Method(event='file-flush')}
+
+
+class StdFilesI(Interface):
+    attrs = {'out': Iface(FileI), 'err': Iface(FileI)}
+
+
+def _mk_env_w_files(interp, name):
+    out = Iface(PrinterI).make(interp, name + '.printers.out')
+    err = Iface(PrinterI).make(interp, name + '.printers.err')
+    printers = process_result_reporter.StdOutputFilePrinters(out, err)
+    return process_result_reporter.Environment(Iface(StdFilesI).make(interp, name + '.std_files'), printers)
+
+
+M.contract(P_MP + ':_InvalidUsageReporter.report',
+           params=dict(self=Inst(main_program._InvalidUsageReporter, _error_message=Str),
+                       environment=Custom(_mk_env_w_files)),
+           returns=Int,
+           ensures={
+               'exit-code-64': lambda ret: ret == 64,
+               'message-on-stderr-only-no-identifier-on-stdout': lambda self, environment, trace:
+               [e[1] for e in calls(trace)] == [environment.std_files.err, environment.std_files.err]
+               and calls(trace)[0][2][0] == self._error_message,
+           }, raises_only=())
+
+
+class ArgParseCallableI(Interface):
+    """parses the command line and builds the reporter of the command, or rejects the command line"""
+    methods = {'__call__': Method(returns=Any_, may_raise=(
+        lambda interp, o: argument_parsing_utils.ArgumentParsingError(Str.make(interp, 'usage-error')),))}
+
+
+M.contract(P_MP + ':_parse_and_exit_on_error',
+           params=dict(parse_arguments_and_execute_callable=Iface(ArgParseCallableI), arguments=Any_),
+           returns=Any_,
+           raises={main_program._StartupError: {
+               'ensures': lambda exc: isinstance(exc.result, main_program._InvalidUsageReporter)}},
+           ensures={'otherwise-the-reporter-of-the-command': lambda ret: True},
+           raises_only=())
+
+# ------------------------------------------------------------------------------ the status instruction
+
+class ConfBuilderI(Interface):
+    methods = {'set_test_case_status': Method(event='set-status')}
+
+
+M.contract('exactly_lib.impls.instructions.configuration.test_case_status:_Instruction.main',
+           params=dict(self=Inst(status_instruction._Instruction, mode_to_set=EnumOf(TestCaseStatus)),
+                       configuration_builder=Iface(ConfBuilderI)),
+           ensures={'sets-exactly-the-parsed-status': lambda self, configuration_builder, trace:
+           trace == [('set-status', configuration_builder, (self.mode_to_set,)),
+                     ('set-status:returned', configuration_builder, None)],
+                    'succeeds': lambda ret: ret.is_success},
+           raises_only=())
+
+# ------------------------------------------------------------------------------ plumbing of the output mode into the execution
+
+
+class ReporterI(Interface):
+    """any of the three result reporters, through the two questions the processor asks it"""
+    methods = {'depends_on_result_in_sandbox': Method(returns=Bool, pure=True),
+               'execute_atc_and_skip_assertions': Method(returns=Opt(Any_), pure=True)}
+
+
+class PredefPropsI(Interface):
+    attrs = {'default_environ_getter': Any_, 'environ': Any_, 'timeout_in_seconds': Any_, 'predefined_symbols': Any_}
+
+
+class TcDefI(Interface):
+    attrs = {'predefined_properties': Iface(PredefPropsI), 'parsing_setup': Any_}
+
+
+M.contract('exactly_lib.processing.processors:new_executor_that_may_pollute_current_processes2', trusted=True,
+           params=dict(exe_configuration=Any_, act_phase_setup=Any_, is_keep_sandbox=Bool), returns=Any_,
+           event='new-executor')
+M.contract('exactly_lib.util.symbol_table:symbol_table_from_none_or_value', trusted=True,
+           params=dict(symbol_table_or_none=Any_), returns=Any_)
+M.trust('processors.new_executor_that_may_pollute_current_processes2 stores its three arguments (constructor of '
+        '_Executor; its use of is_keep_sandbox and exe_atc_and_skip_assertions is C04 / C01)')
+
+M.contract('exactly_lib.processing.standalone.processor:Processor._executor',
+           params=dict(self=Inst(standalone_processor.Processor, _test_case_definition=Iface(TcDefI),
+                                 _os_services=Any_, _suite_configuration_section_parser=Any_, _mem_buff_size=Int),
+                       act_phase_setup=Any_, is_keep_sandbox=Bool, sandbox_root_dir_resolver=Any_,
+                       result_reporter=Iface(ReporterI)),
+           returns=Any_,
+           ensures={'keep-flag-and-act-output-files-reach-the-executor': lambda is_keep_sandbox, result_reporter, trace:
+           len(calls(trace)) == 1 and calls(trace)[0][0] == 'new-executor'
+           and calls(trace)[0][1]['is_keep_sandbox'] is is_keep_sandbox
+           and calls(trace)[0][1]['exe_configuration'].exe_atc_and_skip_assertions
+           is result_reporter.execute_atc_and_skip_assertions()},
+           raises_only=())
+
+
+@M.check('status names')
+def _status_names(ctx):
+    ctx.obligation('NAME_2_STATUS maps PASS/SKIP/FAIL to the members of the same name',
+                   tcs.NAME_2_STATUS == {'PASS': TestCaseStatus.PASS, 'SKIP': TestCaseStatus.SKIP,
+                                         'FAIL': TestCaseStatus.FAIL},
+                   'enumeration', detail={'value': repr(tcs.NAME_2_STATUS)})
+    from exactly_lib.cli.definitions import exit_codes
+    ctx.obligation('EXIT_INVALID_USAGE == 64', exit_codes.EXIT_INVALID_USAGE == 64, 'enumeration')
+    # real parser of the status instruction on the documented spellings (finite, executed natively)
+    p = status_instruction.Parser()
+    ok = True
+    detail = {}
+    for text, want in (('= PASS', TestCaseStatus.PASS), ('= FAIL', TestCaseStatus.FAIL), ('= SKIP', TestCaseStatus.SKIP),
+                       ('= pass', TestCaseStatus.PASS), (' =  skip ', TestCaseStatus.SKIP)):
+        try:
+            got = p._parse(text).mode_to_set
+        except Exception as e:
+            got = repr(e)
+        detail[text] = str(got)
+        ok = ok and got is want
+    for text in ('= XFAIL', '= ', '= PASS FAIL'):
+        try:
+            p._parse(text)
+            ok = False
+            detail[text] = 'accepted'
+        except Exception as e:
+            detail[text] = type(e).__name__
+            ok = ok and type(e).__name__ == 'SingleInstructionInvalidArgumentException'
+    ctx.obligation('status instruction: documented spellings set the named status, anything else is a syntax error',
+                   ok, 'enumeration', detail=detail)
